@@ -41,6 +41,7 @@ def run(keys, opts=None, tier='quick', verbose=True):
             if not ok and not exp:
                 for o, r in lst:
                     if r['status'] != 'unsat':
+                        print('     piece', o.meta.get('piece'), 'path', o.meta.get('path'), r['status'], [(x['solver'], x['status'], round(x['time'],1)) for x in r['runs']], 'goal:', str(o.goal)[:300].replace('\n',' '))
                         print("     detail:", o.meta.get('detail'), 'line', o.meta.get('line'))
                         if r.get('model'):
                             m = r['model']
